@@ -233,5 +233,12 @@ def check_case(case):
     if not np.abs(km._phiC(zz, LL) - pbl_model.phi(zz / LL)).max() <= 1e-12 * np.abs(pbl_model.phi(zz / LL)).max():
         out.bad("phi disagrees with the Kormann-Meixner module's _phiC")
 
+    # the copies must agree for integer-typed heights as well (heights are often whole metres)
+    zi = np.array([int(round(zm)) + 1, 3])
+    if not np.abs(km._psiM(zi, LL) - pbl_model.psi(zi / LL)).max() <= 1e-12 * max(1.0, np.abs(pbl_model.psi(zi / LL)).max()):
+        out.bad(f"psi disagrees with the Kormann-Meixner module's _psiM for integer-typed heights {zi.tolist()}")
+    if not np.abs(km._phiC(zi, LL) - pbl_model.phi(zi / LL)).max() <= 1e-12 * np.abs(pbl_model.phi(zi / LL)).max():
+        out.bad(f"phi disagrees with the Kormann-Meixner module's _phiC for integer-typed heights {zi.tolist()}")
+
     out.nontrivial = case["stab"] in ("stable", "unstable") or custom
     return out
